@@ -858,7 +858,7 @@ TRUSTED = [
     "timers are outputs only (the cluster model lets a timeout or heartbeat fire at any moment)",
 ]
 
-COQ_FILES = ["C11/Model.v", "C11/NodeProofs.v", "C11/Election.v", "C11/Refute.v", "C11/LogProofs.v", "C11/Progress.v", "C11/Props.v"]
+COQ_FILES = ["C11/Model.v", "C11/NodeProofs.v", "C11/Election.v", "C11/Refute.v", "C11/LogProofs.v", "C11/LogMatching.v", "C11/Progress.v", "C11/Props.v"]
 
 
 # --------------------------------------------------------------------------- small-scope exhaustive exploration (search only)
